@@ -747,6 +747,20 @@ func (g *vcgen) exit(fc *FuncContract, sig *types.Signature, args, binds []strin
 		}
 		g.oblige("post", clauseLabel(e, i), t, e.Src)
 	}
+	// "reachable [label] e": some path reaches the exit with e (a cover that is an obligation: unsat means the clause fails)
+	for i, e := range fc.Reachable {
+		if g.eng.CurProp != "" && len(e.Label) > 4 && e.Label[0] == 'C' && e.Label[3] == ':' && e.Label[:3] != g.eng.CurProp {
+			continue
+		}
+		t, err := env.EvalBool(e.Expr)
+		if err != nil {
+			g.unsupported("reachable: %v", err)
+			continue
+		}
+		ob := &Obligation{Name: g.u.Name + "/reach(" + clauseLabel(e, i) + ")", Class: "reach", Func: g.u.Name, Expect: "sat", Src: e.Src}
+		ob.Parts = []Part{{Prefix: len(g.u.Items), Goal: fmt.Sprintf("(and %s %s)", g.pc, t)}}
+		g.u.Obls = append(g.u.Obls, ob)
+	}
 	// "applies p": p was called exactly once and its results are returned; "returnsparam p": p itself is returned
 	if g.fc != nil {
 		if pn := strings.TrimSpace(g.fc.Flags["applies"]); pn != "" {
